@@ -67,6 +67,9 @@ pub struct Init {
     pub start: u64,
     pub pre: u8, // 0 = empty destination, 1 = exactly `start` bytes, 2 = start+100 bytes
     pub fault: Fault,
+    /// absolute file offset of the window the destination presents (0 = ordinary; > 4 GiB: a dump
+    /// appended to a huge file). `start` and `pre` are relative to it.
+    pub base: u64,
 }
 
 impl Init {
@@ -84,7 +87,7 @@ impl Init {
             Fault::PanicAt(k) => json!({"panic_at_call": k}),
             Fault::ShortWrites(n) => json!({"short_writes": n}),
         };
-        json!({"nslots": self.nslots, "start": self.start, "pre": self.pre, "fault": f})
+        json!({"nslots": self.nslots, "start": self.start, "pre": self.pre, "fault": f, "base": self.base})
     }
     fn from_json(v: &Value) -> Option<Init> {
         let f = v.get("fault")?;
@@ -97,7 +100,7 @@ impl Init {
         } else {
             Fault::ShortWrites(f.get("short_writes")?.as_u64()? as usize)
         };
-        Some(Init { nslots: v.get("nslots")?.as_u64()? as u8, start: v.get("start")?.as_u64()?, pre: v.get("pre")?.as_u64()? as u8, fault })
+        Some(Init { nslots: v.get("nslots")?.as_u64()? as u8, start: v.get("start")?.as_u64()?, pre: v.get("pre")?.as_u64()? as u8, fault, base: v.get("base").and_then(|b| b.as_u64()).unwrap_or(0) })
     }
 }
 
@@ -167,6 +170,7 @@ pub fn run_history(init: &Init, h: &[Op], check_c09: bool) -> Result<Outcome, (S
     let pre = init.pre_bytes();
     let start = init.start as usize;
     let dest = Rc::new(RefCell::new(RecDest::new(pre.clone(), init.start, init.fault)));
+    dest.borrow_mut().base = init.base;
     let mut shared = SharedDest(dest.clone());
     let mut buffer = Buffer::with_capacity(0);
     let hdr_bytes: Vec<u8> = (0..32).map(|i| 0xA0 + i as u8).collect();
@@ -236,6 +240,9 @@ pub fn run_history(init: &Init, h: &[Op], check_c09: bool) -> Result<Outcome, (S
         failed = res.is_err();
         if check_c09 {
             let d = dest.borrow();
+            if let Some((at, n)) = d.stray.first() {
+                return Err(("wrote-outside-the-dump".into(), format!("after op #{i} {}: {n} bytes were written at absolute offset {at:#x}, outside the dump's range (the destination was positioned at {:#x} when the dump started)", op.name(), init.base + init.start)));
+            }
             if let Some((k, m)) = file_model_check(&d.data, &pre, start, &buffer, &image_before, &model, failed) {
                 return Err((k, format!("after op #{i} {} ({}): {m}", op.name(), if failed { "failed" } else { "ok" })));
             }
@@ -313,7 +320,14 @@ pub fn inits() -> Vec<Init> {
                 if start == 0 && pre == 1 {
                     continue; // same as empty
                 }
-                v.push(Init { nslots, start, pre, fault: Fault::None });
+                v.push(Init { nslots, start, pre, fault: Fault::None, base: 0 });
+                // the same destination presented at absolute offsets just below / beyond 4 GiB and 2^40
+                // (a dump appended to a huge file): offsets must be handled in 64 bits
+                if nslots <= 2 && pre != 0 {
+                    for base in [0xffff_ffe0u64, 0x1_0000_3000, 1 << 40] {
+                        v.push(Init { nslots, start, pre, fault: Fault::None, base });
+                    }
+                }
             }
         }
     }
